@@ -12,6 +12,7 @@ import (
 	"math/rand"
 	"os"
 	"sort"
+	"time"
 
 	"github.com/alicebob/miniredis/v2"
 	"github.com/kwertop/gostatix"
@@ -56,7 +57,10 @@ func main() {
 		os.Exit(2)
 	}
 	defer mr.Close()
-	gostatix.MakeRedisClient(gostatix.RedisConnOptions{Address: mr.Addr()})
+	// generous timeouts: under heavy machine load a reply can take seconds; go-redis would
+	// time out after 3 s and RETRY the command - an update would then be applied twice and the
+	// run would report a difference that is not in the code under test
+	gostatix.MakeRedisClient(gostatix.RedisConnOptions{Address: mr.Addr(), ConnectionTimeout: time.Minute, ReadTimeout: 30 * time.Minute, WriteTimeout: 30 * time.Minute})
 
 	tf, err := os.Create(*tracePath)
 	if err != nil {
